@@ -1064,6 +1064,19 @@ inline bool Transport::setReadMode(SessionId sid, ReadMode mode)
       oldMode = it->second;
     }
 
+    // A session that has closed has no read mode to switch any more: the close
+    // erased its entry and marked its buffer closed. Recording a mode now would
+    // leave an entry that nothing erases, and a later switch to Async would then
+    // take it for a live session and hand the bytes left in the closed buffer to
+    // the data callback - after the close. They belong to late receiveSync callers.
+    {
+      auto closedIt = _impl->receiveBuffers.find(sid);
+      if (closedIt != _impl->receiveBuffers.end() && closedIt->second->closed)
+      {
+        return true;
+      }
+    }
+
     // Bytes buffered by an earlier Sync phase are still owed to the application: a
     // switch to Async hands them over first, also when a Disabled phase lies in
     // between (Sync -> Disabled -> Async would otherwise strand them in the buffer
